@@ -166,6 +166,55 @@ def run_matrix(ctx, report):
     return M
 
 
+PERMUTED = ['{"a":1,"b":2}', '{"b":2,"a":1}', '{"x":{"a":1,"b":2}}', '{"x":{"b":2,"a":1}}', '[{"a":1,"b":2}]', '[{"b":2,"a":1}]', '{"a":1,"b":2,"c":3}',
+            '{"c":3,"b":2,"a":1}', '{"b":2,"c":3,"a":1}', '[1,{"k":"v","l":null}]', '[1,{"l":null,"k":"v"}]', '{"a":1}', '[2]', '"s"']
+
+
+def run_permuted(ctx):
+    """Objects that differ only in member order: the documents do not say how they are ordered, but < <= > >= must still
+    describe ONE relation (<= is "not >", >= is "not <", never both < and >), and that relation must be the one --sort-by uses."""
+    st = ctx.stats
+    n = len(PERMUTED)
+    lines = ["[%s,%s]" % (PERMUTED[i], PERMUTED[j]) for i in range(n) for j in range(n)]
+    args = ["--select=(< #0 #1)=lt", "--select=(<= #0 #1)=le", "--select=(> #0 #1)=gt", "--select=(>= #0 #1)=ge", "--style", "consise"]
+    o = ctx.drv.run(core.Case(args, "\n".join(lines).encode()))
+    if o.result != "ok":
+        st.inconc("permuted_matrix_failed")
+        return
+    rows = [jm.plain(r) for r in jm.read_rows(o.stdout)]
+    rel = {}
+    for idx, r in enumerate(rows):
+        i, j = divmod(idx, n)
+        lt, le, gt, ge = (r.get(k) for k in ("lt", "le", "gt", "ge"))
+        if not all(isinstance(x, bool) for x in (lt, le, gt, ge)) or (lt and gt) or le != (not gt) or ge != (not lt):
+            st.violation("operators-inconsistent-permuted", "< <= > >= do not describe one relation for a=%s b=%s: %r" % (PERMUTED[i], PERMUTED[j], r),
+                         {"kind": "permuted", "a": PERMUTED[i], "b": PERMUTED[j]}, None)
+            return
+        rel[(i, j)] = -1 if lt else 1 if gt else 0
+    for i in range(n):
+        for j in range(n):
+            if rel[(i, j)] != -rel[(j, i)]:
+                st.violation("not-antisymmetric-permuted", "cmp(a,b) != -cmp(b,a) for %s, %s" % (PERMUTED[i], PERMUTED[j]), {"kind": "permuted"}, None)
+                return
+    # the same relation decides --sort-by: sort all values in two arrival orders
+    recs = ['{"k":%s,"i":%d}' % (t, i) for i, t in enumerate(PERMUTED)]
+    o1, o2 = ctx.drv.run_many([core.Case(["--sort-by", ".k", "--select", ".i=i", "--style", "consise"], "\n".join(recs).encode()),
+                               core.Case(["--sort-by", ".k", "--select", ".i=i", "--style", "consise"], "\n".join(reversed(recs)).encode())])
+    if o1.result != "ok" or o2.result != "ok":
+        st.inconc("permuted_sort_failed")
+        return
+    for o, arrival in ((o1, list(range(n))), (o2, list(range(n - 1, -1, -1)))):
+        got = [jm.plain(r)["i"] for r in jm.read_rows(o.stdout)]
+        pos = {v: k for k, v in enumerate(arrival)}
+        import functools
+        want = sorted(arrival, key=functools.cmp_to_key(lambda a, b: rel[(a, b)] or (pos[a] - pos[b])))
+        if got != want:
+            st.violation("sort-vs-operators-permuted", "--sort-by orders member-permuted objects differently from < and >", {"kind": "permuted"},
+                         {"got": got, "want": want})
+            return
+    st.count("permuted_pairs_checked", n * n)
+
+
 def spell_dir(rng, desc):
     w = "DESC" if desc else rng.choice(["ASC", ""])
     if not w:
@@ -211,6 +260,9 @@ def run_unit(ctx, unit):
     st = ctx.stats
     if unit["kind"] == "matrix":
         run_matrix(ctx, True)
+        return
+    if unit.get("kind") == "permuted":
+        run_permuted(ctx)
         return
     M = getattr(ctx, "matrix", None)
     if M is None:
@@ -325,6 +377,8 @@ def run_unit(ctx, unit):
 def worker(ctx):
     st = ctx.stats
     ctx.matrix = run_matrix(ctx, ctx.idx == 0)
+    if ctx.idx == 0:
+        run_permuted(ctx)
     if ctx.idx == 0:
         st.sample({"universe_size": len(UNIVERSE), "universe_head": UNIVERSE[:12]})
     if ctx.matrix is None:
